@@ -51,6 +51,9 @@ TERMINATORS = ['quit', 'quit_loop_world', 'quit_loop_default', 'harness',
                # handle's load quits (raise SwitchWorld(h) from the frame,
                # or loop.switch(h) called in the frame)
                'switch_load_quits', 'soft_switch_load_quits',
+               # ... the same with clear_current: the handle that keeps
+               # running must not have been emptied
+               'switch_load_quits_cc',
                # quit_loop(w) with a world that is not the running one
                'quit_loop_other']
 SWITCHES = ['switch', 'raise_switch', 'switch_self']
@@ -157,9 +160,14 @@ def run_case(case):
     class WH(desper.Handle):
         def __init__(self, world):
             self.world = world
+            self.clears = 0
 
         def load(self):
             return self.world
+
+        def clear(self):
+            self.clears += 1
+            super().clear()
 
     class QuitHandle(desper.Handle):
         def load(self):
@@ -221,6 +229,9 @@ def run_case(case):
         fault['kind'] = kind
         if kind == 'switch_load_quits':
             raise desper.SwitchWorld(QuitHandle())
+        if kind == 'switch_load_quits_cc':
+            state['clears_before'] = sum(h.clears for h in handles)
+            raise desper.SwitchWorld(QuitHandle(), clear_current=True)
         if kind == 'soft_switch_load_quits':
             loop.switch(QuitHandle())
             raise HarnessError('a load that quits did not end the frame')
@@ -355,6 +366,12 @@ def judge_start(case, res, s, events, log, reads, outcome, fault, loop,
                     [worlds.index(loop.current_world)
                      if loop.current_world in worlds else None])
     state['cur'] = cur
+    if kind == 'switch_load_quits_cc' and sum(
+            h.clears for h in handles) != state.get('clears_before'):
+        return fail('current-handle-cleared', 'Quit was raised by the load '
+                    'of the world being switched to (clear_current given): '
+                    'the handle of the world that keeps running was emptied',
+                    'unchanged', 'cleared')
     # ---- one clock reading per iteration
     values = [Fraction(v) for _, v in reads]
     if len(values) != len(model):
